@@ -556,6 +556,9 @@ def textify(r, holder, conf, places=("args", "args", "kwargs", "kwargs", "labels
                 where += ", under a non-ASCII key"
         elif where == "labels":
             key = r.choice(TEXT_KEYS) if r.random() < .15 else r.choice(["q", "queue", "src_file", "x"])
+            if r.random() < .15:
+                v = {"__sub__": ["str", s]}          # the text held by an instance of a str SUBCLASS (travels as text, type ANY)
+                where += ", instance of a str subclass"
             holder.setdefault("labels", {})[key] = v
             if key in TEXT_KEYS:
                 where += ", under a non-ASCII key"
@@ -831,7 +834,7 @@ def vtype(v):
     if isinstance(v, dict) and len(v) == 1:
         k = next(iter(v))
         return {"__float__": "float", "__dec__": "Decimal", "__frac__": "Fraction", "__enum__": "enum member", "__bytes__": "bytes",
-                "__tuple__": "tuple", "__fset__": "frozenset"}.get(k, k)
+                "__tuple__": "tuple", "__fset__": "frozenset", "__sub__": "instance of a subclass of a primitive"}.get(k, k)
     return "None" if v is None else type(v).__name__
 
 
